@@ -134,7 +134,7 @@ EXPORT errno_t _mbstowcs_s_chk(size_t *restrict retvalp, wchar_t *restrict dest,
     mbstate_t st;
 #endif
 
-    CHK_SRC_NULL("mbstowcs_s", retvalp)
+    CHK_ARG_NULL_TERM("mbstowcs_s", retvalp, RSIZE_MAX_WSTR, wchar_t)
     *retvalp = 0;
     CHK_SRCW_NULL_CLEAR("mbstowcs_s", src)
     if (dest) {
